@@ -29,7 +29,7 @@ def _g(mode, kind, depth, name, **kw):
 _GEN_C17 = dict(
     quick=[_g("core", "edges", 9, "core-edges", max=30),
            _g("del", "edges", 8, "deletion-edges", max=40),
-           _g("late", "edges", 9, "late-response-edges", max=12),
+           _g("late", "edges", 9, "late-response-edges", max=20),
            _g("timeout", "edges", 7, "timeout-edges", max=6),
            _g("forced", "edges", 9, "forced-schedules", max=6),
            _g("del", "sim", 11, "deletion-walks", num=12, max=16, salt=1)],
@@ -80,7 +80,7 @@ def _cor_c37(evs):
 
 _COMMON = dict(
     modules=["discovery"], driver="discdrv", judge=dict(spec="DiscoveryTrace.tla", cfg="DiscoveryTrace.cfg"),
-    driver_timeout=2400, judge_timeout=2400, selftest_scenarios=400)
+    driver_timeout=2400, judge_timeout=2400, selftest_scenarios=150)
 
 ALSO = {
     "C17": [dict(_COMMON, design=_DESIGN, gen=_GEN_C17, corrupt=_cor_c17,
